@@ -581,6 +581,12 @@ func ruleStorageTable(r *Report) {
 		for i := 0; i < st.NumFields(); i++ {
 			f := st.Field(i)
 			fr := fieldRef{Struct: "column." + name, Field: f.Name()}
+			if storageField(fr) == stNone && constructionOnly(r.P)[fr.Struct+"."+fr.Field] {
+				// a value that is assigned only while the object is built and only read afterwards (a
+				// name, a base struct of names) is a constant of the object and needs no synchronisation
+				h.OK(fr.Struct+"."+fr.Field, r.P.Pos(f.Pos()), "not in the table; assigned only during construction and only read afterwards")
+				continue
+			}
 			h.Check(storageField(fr) != stNone, fr.Struct+"."+fr.Field, r.P.Pos(f.Pos()), "classified", "field of a Column implementation is not in the checker's storage table; its synchronisation is not checked")
 		}
 	}
